@@ -207,6 +207,15 @@ def s2(chk: Check, proj: Project, w, m, cls) -> None:
     top = lambda x: enclosing_stmt(x) in f.body  # noqa: E731
     ok = bool(ent) and len(adds) == 1 and len(regs) == 1 and top(adds[0]) and top(regs[0]) and top(ent[0])
     chk.ob("S2", "component_registry:register:paired-updates", m.loc(f), ok, f"entry = _register_to_library(...); _tags[{tagv}].add({name}); _registry[{name}] = entry -- all unconditional" if ok else "register() does not unconditionally record the name under its tag AND in the registry after registering the tag")
+    # every registration (re-)installs the tag: whether the Library has the tag is the Library's state, which unregister()
+    # of this or ANY other registry changes - a per-registry memory of "already installed" goes stale
+    rl = m.func("ComponentRegistry._register_to_library")
+    chk.analysed(fkey(m, rl))
+    rt = calls(rl, "register_tag")
+    okt = len(rt) == 1 and enclosing_stmt(rt[0]) in rl.body
+    chk.ob("S2", "component_registry:_register_to_library:tag-installed-on-every-registration", m.loc(rt[0]) if rt else m.loc(rl), okt,
+           "register_tag(...) runs unconditionally for every registered component" if okt else
+           f"register_tag(...) is skipped when `{' and '.join(('' if pol else 'not ') + t for t, pol in cond_atoms(enclosing_stmt(rt[0]))) if rt else '?'}`: after the last user of a tag was unregistered (which deletes the tag from the Library) a later register() of a component needing that tag leaves the Library WITHOUT the tag - all() lists the component, the template tag does not exist")
     ex = [s for s in f.body if isinstance(s, ast.If) and any(isinstance(r, ast.Raise) and "AlreadyRegistered" in norm(r) for r in s.body)]
     okx = bool(ex) and "_class_hash !=" in norm(ex[0].test) and "existing" in norm(ex[0].test)
     chk.ob("S2", "component_registry:register:conflict-test", m.loc(ex[0]) if ex else m.loc(f), okx, "AlreadyRegistered only for a DIFFERENT class under the same name (same class is a no-op re-registration)")
